@@ -242,6 +242,8 @@ pub fn continuation_alphabet(kind: Kind) -> Vec<Op> {
             Op::B(Bar::hlcv(1.0, 1.0, 1.0, 2.0)),
             Op::B(Bar { o: 1.0, h: f64::NAN, l: f64::NAN, c: f64::NAN, v: f64::NAN }),
             Op::B(Bar { o: 1.0, h: f64::INFINITY, l: 1.0, c: f64::INFINITY, v: 1.0 }),
+            // a valid bar at negative prices (spreads): zero / -inf initial values are not neutral there
+            Op::B(Bar { o: -2.5, h: -1.0, l: -3.0, c: -2.0, v: 5.0 }),
         ]);
     } else if kind.bar_native() {
         v.extend([
@@ -250,9 +252,10 @@ pub fn continuation_alphabet(kind: Kind) -> Vec<Op> {
             Op::S(1.0),
             Op::S(f64::NAN),
             Op::B(Bar { o: 1.0, h: f64::INFINITY, l: 1.0, c: f64::INFINITY, v: 1.0 }),
+            Op::S(-2.0),
         ]);
     } else {
-        v.extend([Op::S(2.0), Op::S(4.0), Op::S(1.0), Op::S(f64::NAN), Op::S(f64::INFINITY)]);
+        v.extend([Op::S(2.0), Op::S(4.0), Op::S(1.0), Op::S(f64::NAN), Op::S(f64::INFINITY), Op::S(-2.0)]);
     }
     v
 }
